@@ -36,6 +36,26 @@ func spanOf(container, part []byte, name string) (span, bool) {
 	return span{name, i, len(part)}, true
 }
 
+// bitStringSpans returns the protected spans of a BIT STRING whose content is bits: the
+// unused-bits octet in front of it (it is part of the value: with k unused bits the field
+// is a different, shorter bit string) and the content octets.
+func bitStringSpans(container, bits []byte, name string) ([]span, bool) {
+	sp, ok := spanOf(container, bits, name)
+	if !ok || sp.off < 3 || container[sp.off-1] != 0 {
+		return nil, false
+	}
+	return []span{{name + ".unusedBits", sp.off - 1, 1}, sp}, true
+}
+
+// wellFormedUnusedBits is the number of k in 1..7 for which "k unused bits" is well-formed DER for this content.
+func wellFormedUnusedBits(bits []byte) int {
+	n := 0
+	for k := 1; k <= 7 && bits[len(bits)-1]&(1<<k-1) == 0; k++ {
+		n++
+	}
+	return n
+}
+
 // sweep substitutes every byte of the container (xor 01, xor 80, 00, ff) and decodes the
 // result. Verdicts: an altered container that decodes to a different key is a violation
 // everywhere; inside a protected span any acceptance is a violation; elsewhere a decode to
@@ -57,7 +77,12 @@ func sweep(c *mon.Case, kind string, container []byte, protected []span, s *subj
 		region, _ := regionOf(nodes, i)
 		prot := inSpan(i)
 		seen := map[byte]bool{container[i]: true}
-		for _, v := range []byte{container[i] ^ 0x01, container[i] ^ 0x80, 0x00, 0xff} {
+		subs := []byte{container[i] ^ 0x01, container[i] ^ 0x80, 0x00, 0xff}
+		if strings.HasSuffix(prot, ".unusedBits") {
+			subs = append(subs, 1, 2, 3, 4, 5, 6, 7) // every well-formed (and malformed) count of unused bits
+			c.Event("altered_unused_bits_octets", 1)
+		}
+		for _, v := range subs {
 			if seen[v] {
 				continue
 			}
@@ -169,7 +194,7 @@ func tamper(x *mon.Ctx) {
 	}
 	// SM2 enveloped key and CFCA blob
 	reps := x.Scale(1, 12)
-	for _, label := range sm2Labels {
+	for _, label := range append(append([]string{}, sm2Labels...), "sm2/ylow0") {
 		for rep := 0; rep < reps; rep++ {
 			c := x.Begin("alterations of an SM2 enveloped key of %s rep=%d", label, rep)
 			if c != nil {
@@ -196,10 +221,20 @@ func envelopeSweep(c *mon.Case, label string) {
 		c.Fail("mismatch", "building the recipient: %v", err)
 		return
 	}
-	env, err := sm2.MarshalEnvelopedPrivateKey(libRand(c), &rk.PublicKey, s.priv.(*sm2.PrivateKey))
-	if err != nil {
-		c.Fail("reject", "sm2.MarshalEnvelopedPrivateKey: %v", err)
-		return
+	// take the first envelope whose encrypted scalar ends in an octet with the low 7 bits clear
+	// (the SM4 key comes from the case generator): its BIT STRING stays well formed for every
+	// count of unused bits
+	var env []byte
+	lr := libRand(c)
+	for try := 0; try < 4096; try++ {
+		env, err = sm2.MarshalEnvelopedPrivateKey(lr, &rk.PublicKey, s.priv.(*sm2.PrivateKey))
+		if err != nil {
+			c.Fail("reject", "sm2.MarshalEnvelopedPrivateKey: %v", err)
+			return
+		}
+		if env[len(env)-1]&0x7f == 0 {
+			break
+		}
 	}
 	c.Detail("envelope", env)
 	c.Detail("recipient", rk.D.Bytes())
@@ -222,12 +257,21 @@ func envelopeSweep(c *mon.Case, label string) {
 	for _, p := range []struct {
 		n string
 		b []byte
-	}{{"C1.x", ct.X.Bytes()}, {"C1.y", ct.Y.Bytes()}, {"C3", ct.Hash}, {"C2", ct.Data}, {"publicKey", e.PublicKey.Bytes}, {"encryptedPrivateKey", e.EncKey.Bytes}} {
+	}{{"C1.x", ct.X.Bytes()}, {"C1.y", ct.Y.Bytes()}, {"C3", ct.Hash}, {"C2", ct.Data}} {
 		if sp, ok := spanOf(env, p.b, p.n); ok {
 			prot = append(prot, sp)
 		}
 	}
-	if len(prot) != 6 {
+	for _, p := range []struct {
+		n string
+		b []byte
+	}{{"publicKey", e.PublicKey.Bytes}, {"encryptedPrivateKey", e.EncKey.Bytes}} {
+		if sps, ok := bitStringSpans(env, p.b, p.n); ok {
+			prot = append(prot, sps...)
+			c.Event("wellformed_unused_bits_variants", wellFormedUnusedBits(p.b))
+		}
+	}
+	if len(prot) != 8 {
 		c.Inconclusive("protected spans not located")
 		return
 	}
@@ -273,10 +317,11 @@ func cfcaSweep(c *mon.Case, label string) {
 	if sp, ok := spanOf(blob, ct, "encryptedKey"); ok {
 		prot = append(prot, sp)
 	}
-	if sp, ok := spanOf(blob, s.pub[1:], "certificate.publicKey"); ok {
-		prot = append(prot, sp)
+	if sps, ok := bitStringSpans(blob, s.pub, "certificate.publicKey"); ok {
+		prot = append(prot, sps...)
+		c.Event("wellformed_unused_bits_variants", wellFormedUnusedBits(s.pub))
 	}
-	if len(prot) != 2 {
+	if len(prot) != 3 {
 		c.Inconclusive("protected spans not located")
 		return
 	}
